@@ -24,7 +24,7 @@ func init() {
 			"what is decided here is the history/schedule clause of the property (first use = later use = concurrent use); the priority rule itself is input-quantified and only cross-checked by a small reference model on the generated family",
 			"values are placed only in sources that the field names in its tags (the form getter's documented fallback to the query string is not part of the model)",
 		},
-		RequiredProbes: []string{"yield:bindTag.miss", "yield:bindTag.store", "concurrent-first-use", "warm-hit", "cold-miss", "required-missing", "default-used", "json-source", "path-source"},
+		RequiredProbes: []string{"yield:bindTag.miss", "yield:bindTag.store", "concurrent-first-use", "warm-hit", "cold-miss", "required-missing", "default-used", "json-source", "path-source", "untagged-field", "empty-value"},
 	}
 }
 
@@ -35,13 +35,15 @@ type c15field struct {
 	key      string
 	def      string
 	required bool
+	untagged bool
 }
 
 var c15Sources = []string{"path", "form", "query", "cookie", "header", "json"}
 
 type c15type struct {
-	fields []c15field
-	rt     reflect.Type
+	fields      []c15field
+	rt          reflect.Type
+	hasUntagged bool
 }
 
 type c15req struct {
@@ -54,6 +56,28 @@ func c15GenType(tp *core.Tape, ti int) *c15type {
 	var sf []reflect.StructField
 	for i := 0; i < nf; i++ {
 		f := c15field{name: fmt.Sprintf("F%d", i), key: fmt.Sprintf("K%d", i), kind: tp.Choose("kind", 8)}
+		if tp.Chance("untagged", 1, 6) {
+			// no source tag at all: every source is tried under the field's own name
+			f.untagged = true
+			f.key = f.name
+			f.tags = []string{"path", "form", "query", "cookie", "header", "json"}
+			var ft reflect.Type
+			switch f.kind {
+			case 0:
+				ft = reflect.TypeOf("")
+			case 4:
+				ft = reflect.TypeOf(false)
+			case 5:
+				ft = reflect.TypeOf(float64(0))
+			default:
+				f.kind = 1
+				ft = reflect.TypeOf(int(0))
+			}
+			sf = append(sf, reflect.StructField{Name: f.name, Type: ft, Tag: reflect.StructTag(fmt.Sprintf(`sim:"t%d"`, ti))})
+			t.fields = append(t.fields, f)
+			t.hasUntagged = true
+			continue
+		}
 		nt := 1 + tp.Choose("ntags", 3)
 		used := map[string]bool{}
 		for k := 0; k < nt; k++ {
@@ -132,6 +156,9 @@ func c15GenReq(tp *core.Tape, t *c15type, ri int) *c15req {
 					r.vals[s] = map[string]string{}
 				}
 				r.vals[s][f.key] = c15Text(f.kind, tp, ri*100+i*10+si)
+				if f.kind == 0 && s != "path" && s != "json" && tp.Chance("emptyval", 1, 6) {
+					r.vals[s][f.key] = "" // present but empty: still the value of that source
+				}
 			}
 		}
 	}
@@ -246,6 +273,9 @@ func c15Bind(b binding.Binder, t *c15type, r *c15req, api int) string {
 // c15Model: the documented rule for the modelled family, api 0 (Bind) only.
 // Returns "" when the case is outside the model.
 func c15Model(t *c15type, r *c15req) string {
+	if t.hasUntagged {
+		return "" // untagged fields follow the default-tag rules, outside the small model
+	}
 	jsonPresent := len(r.vals["json"]) > 0
 	formPresent := len(r.vals["form"]) > 0
 	var sb strings.Builder
@@ -270,6 +300,9 @@ func c15Model(t *c15type, r *c15req) string {
 				text, found = v, true
 				break
 			}
+		}
+		if found && text == "" && f.def != "" {
+			text = f.def // hertz substitutes the declared default for an empty text as well
 		}
 		if !found {
 			if f.required {
@@ -357,6 +390,16 @@ func RunC15(ep *core.Episode) {
 			}
 			if len(jb.r.vals["json"]) > 0 {
 				ep.Probe("json-source")
+			}
+			if jb.t.hasUntagged {
+				ep.Probe("untagged-field")
+			}
+			for _, mm := range jb.r.vals {
+				for _, v := range mm {
+					if v == "" {
+						ep.Probe("empty-value")
+					}
+				}
 			}
 			if len(jb.r.vals["path"]) > 0 {
 				ep.Probe("path-source")
